@@ -336,6 +336,44 @@ def parseSet (s : String) : Option RRSet :=
   | _ => none
 
 open SdnsVerif.Model.ProofExpiry in
+def parseSet3 (s : String) : Option RRSet3 :=
+  match s.splitOn "^" with
+  | [r, ttl, sigs] => do
+    let r ← parseRec3 r
+    let ttl ← ttl.toNat?
+    let sigs ← parseSigs sigs
+    some { rr := r, ttl := ttl, sigs := sigs }
+  | _ => none
+
+open SdnsVerif.Model.ProofExpiry in
+def expAsk (st : State) (q : Name) (t : Nat) (H : SdnsVerif.Model.Nsec3.HashFn) : State × String :=
+  let pv := match lookupProofH st.exp H q t with
+    | some .nxdomain => "nx"
+    | some .nodata => "nodata"
+    | none => "miss"
+  let c := if lookupCut st.exp q then "hit" else "miss"
+  ({ st with exp := pruneOnLookup st.exp q t H }, s!"proof={pv} cut={c} cutw={c}")
+
+open SdnsVerif.Model.ProofExpiry in
+def expPut (st : State) (zone kind subj qt soa cut : String) (sets : Option (List RRSet)) (sets3 : Option (List RRSet3))
+    (H : SdnsVerif.Model.Nsec3.HashFn) : State × String :=
+  match parseName zone, parseName subj, soa.splitOn ",", sets, sets3 with
+  | some zone, some subj, [sttl, smin, ssigs], some sets, some sets3 =>
+    -- Cache.ServeDNS answers from the shared denial state when it can: the
+    -- question then never reaches the resolver and nothing new is admitted
+    if lookupCut st.exp subj then (st, "ok up=0") else
+    let hit := (lookupProofH st.exp H subj (qt.toNat?.getD 0)).isSome
+    let st := { st with exp := pruneOnLookup st.exp subj (qt.toNat?.getD 0) H }
+    if hit then (st, "ok up=0") else
+    match sttl.toNat?, smin.toNat?, parseSigs ssigs, (if cut == "-" then some none else cut.toInt?.map some) with
+    | some sttl, some smin, some ssigs, some cut =>
+      let b : Bundle := { zone := zone, nx := kind == "nx", subject := subj, soaTtl := sttl, soaMin := smin,
+                          soaSigs := ssigs, cut := cut, sets := sets, sets3 := sets3 }
+      ({ st with exp := admitBundle st.exp b }, "ok up=1")
+    | _, _, _, _ => (st, "bad-op")
+  | _, _, _, _, _ => (st, "bad-op")
+
+open SdnsVerif.Model.ProofExpiry in
 def stepExp (st : State) (w : List String) : State × String :=
   match w with
   | ["exp", "new", pm, cm] =>
@@ -349,30 +387,19 @@ def stepExp (st : State) (w : List String) : State × String :=
       ({ st with exp := e }, s!"t={e.now}")
     | none => (st, "bad-op")
   | ["exp", "put", zone, kind, subj, qt, soa, cut, sets] =>
-    match parseName zone, parseName subj, soa.splitOn ",", (sets.splitOn ";").mapM parseSet with
-    | some zone, some subj, [sttl, smin, ssigs], some sets =>
-      -- Cache.ServeDNS answers from the shared denial state when it can: the
-      -- question then never reaches the resolver and nothing new is admitted
-      if lookupCut st.exp subj then (st, "ok up=0") else
-      let hit := (lookupProof st.exp subj (qt.toNat?.getD 0)).isSome
-      let st := { st with exp := pruneOnLookup st.exp subj (qt.toNat?.getD 0) }
-      if hit then (st, "ok up=0") else
-      match sttl.toNat?, smin.toNat?, parseSigs ssigs, (if cut == "-" then some none else cut.toInt?.map some) with
-      | some sttl, some smin, some ssigs, some cut =>
-        let b : Bundle := { zone := zone, nx := kind == "nx", subject := subj, soaTtl := sttl, soaMin := smin,
-                            soaSigs := ssigs, cut := cut, sets := sets }
-        ({ st with exp := admitBundle st.exp b }, "ok up=1")
-      | _, _, _, _ => (st, "bad-op")
-    | _, _, _, _ => (st, "bad-op")
+    expPut st zone kind subj qt soa cut ((sets.splitOn ";").mapM parseSet) (some []) (fun _ => none)
+  | ["exp", "put3", zone, kind, subj, qt, soa, cut, sets3, ht] =>
+    match parseHT ht with
+    | some ht => expPut st zone kind subj qt soa cut (some []) ((sets3.splitOn ";").mapM parseSet3) (htFn ht)
+    | none => (st, "bad-op")
   | ["exp", "ask", q, t] =>
     match parseName q, t.toNat? with
-    | some q, some t =>
-      let pv := match lookupProof st.exp q t with
-        | some .nxdomain => "nx"
-        | some .nodata => "nodata"
-        | none => "miss"
-      ({ st with exp := pruneOnLookup st.exp q t }, s!"proof={pv} cut={if lookupCut st.exp q then "hit" else "miss"} cutw={if lookupCut st.exp q then "hit" else "miss"}")
+    | some q, some t => expAsk st q t (fun _ => none)
     | _, _ => (st, "bad-op")
+  | ["exp", "ask", q, t, ht] =>
+    match parseName q, t.toNat?, parseHT ht with
+    | some q, some t, some ht => expAsk st q t (htFn ht)
+    | _, _, _ => (st, "bad-op")
   | _ => (st, "bad-op")
 
 def step (st : State) (w : List String) : State × String :=
